@@ -489,7 +489,12 @@ func (w *World) Step(op Op) bool {
 	}
 	if w.Node.Panic != "" {
 		if !w.Dirty {
-			w.record("panic", pre, real, nil, op, "real node panicked ("+w.Node.Panic+"), model agrees", "C15")
+			prop := "C15"
+			if (op.Kind == "append" || op.Kind == "install") && pre.SnapIndex > 0 {
+				// a follower that dies on a request of its leader can never be brought up to date
+				prop = "C15/C09"
+			}
+			w.record("panic", pre, real, nil, op, "real node panicked ("+w.Node.Panic+") on a request a correct cluster can send", prop)
 		} else {
 			w.St.Hist["panic-after-adversarial-input"]++
 		}
